@@ -10,7 +10,7 @@ from ..nf import NF, Atom, Undecided, app, atoms_of, evalnf, lift, nf_equal, sin
 from ..values import NONE, Cond, ListV, NoneV, Num, ObjV, OpaqueV, SliceV, StrV, TupleV, valkey
 from .c02 import find_driver_call
 from .c07 import _arrsub, _strip, check_driver, check_generator, check_selector, check_wiring, discover_helpers, lin_set, seeded_driver_checks
-from .common import ABSTRACT_SUMMARIES, N, Pdim, new_executor, returns, run
+from .common import ABSTRACT_SUMMARIES, N, Pdim, flatten, new_executor, returns, run
 from .dp import arr_of, loop_events, main_loop
 
 EXPLANATION = (
@@ -333,13 +333,77 @@ def check_driver_c09(ctx, drv, gen, sel, inner):
     # selector gets (scores, inner starts, inner ends, starts, ends, threshold)
     sc = [x for x in p.events if x.kind == "selector_call"]
     if sc and all(r in found_roles for r in want):
-        b = list(sc[0].data["bound"].values())
-        arrs = [arr_of(x) if isinstance(x, Num) else None for x in b]
-        ok = len(b) == 6 and arrs[0] is found_roles["score"][0].data["arr"] and arrs[1] in [s.data["arr"] for s in found_roles["inner-start"]] and arrs[2] in [s.data["arr"] for s in found_roles["inner-end"]] and nf_equal(b[3].nf, app("ivl_starts")) and nf_equal(b[4].nf, app("ivl_ends")) and nf_equal(b[5].nf, sym("threshold"))
-        ctx.check(ok, "C09.f WIRING", "selector-arguments", sc[0].loc(), "the greedy selection receives (scores, inner starts, inner ends, interval starts, interval ends, threshold)", found=[valkey(x)[:40] for x in b])
+        # each table reaches the selector's parameter of ITS role: the roles of the selector's parameters are read off
+        # the selector itself (which parameters it records as the inner interval, which it compares them with)
+        bd = sc[0].data["bound"]
+        roles_sel = _selector_roles(ctx, sel) if sel is not None else None
+        if roles_sel is None or len(bd) != 6:
+            ctx.undecided("C09.f WIRING", "selector-arguments", sc[0].loc(), "the roles of the greedy selection's parameters could not be read off the selection", found=list(bd))
+        else:
+            gv = {r_: bd.get(pn_) for r_, pn_ in roles_sel.items()}
+            a_of = lambda x: arr_of(x) if isinstance(x, Num) else None  # noqa: E731
+            ok = a_of(gv["scores"]) is found_roles["score"][0].data["arr"] and a_of(gv["inner-start"]) in [s.data["arr"] for s in found_roles["inner-start"]] and a_of(gv["inner-end"]) in [s.data["arr"] for s in found_roles["inner-end"]] and isinstance(gv["start"], Num) and nf_equal(gv["start"].nf, app("ivl_starts")) and isinstance(gv["end"], Num) and nf_equal(gv["end"].nf, app("ivl_ends")) and isinstance(gv["threshold"], Num) and nf_equal(gv["threshold"].nf, sym("threshold"))
+            ctx.check(ok, "C09.f WIRING", "selector-arguments", sc[0].loc(), "the greedy selection receives the score table, the inner starts, the inner ends, the interval starts, the interval ends and the threshold, each in its own role", found={k_: valkey(x)[:40] for k_, x in bd.items()})
 
 
 # ------------------------------------------------------------------- selector
+
+
+def _selector_roles(ctx, sel):
+    """role -> parameter name of the greedy anomaly selection, read off its body: the working copy is made of the SCORES,
+    the loop compares it with the THRESHOLD, the two parameters gathered at the argmax and recorded are the INNER start
+    and end, the two the mask compares them with are the interval START and END (a_end > start, a_start < end)"""
+    from .c07 import check_selector as _cs
+
+    r = _cs(ctx, sel)
+    if r is None:
+        return None
+    p, ex = r
+    loops = main_loop(p, sel.qualname)
+    if len(loops) != 1:
+        return None
+    lp = loops[0]
+    stores = loop_events(p, lp, "store")
+    apps = loop_events(p, lp, "list_append")
+    if len(stores) != 1 or len(apps) != 1:
+        return None
+    work = stores[0].data["arr"]
+    out = {}
+    if work.init[0] == "copy":
+        a0 = single_atom(work.init[1])
+        if a0 is not None and a0.kind == "sym":
+            out["scores"] = a0.args[0]
+    tv = apps[0].data["value"]
+    if not (isinstance(tv, TupleV) and len(tv.items) == 2 and all(isinstance(x, Num) and x.nf is not None for x in tv.items)):
+        return None
+    for r_, x in zip(("inner-start", "inner-end"), tv.items):
+        a_ = single_atom(_strip(x.nf))
+        b_ = single_atom(a_.args[1]) if a_ is not None and a_.kind == "app" and a_.args[0] == "idx" and isinstance(a_.args[1], NF) else None
+        if b_ is None or b_.kind != "sym":
+            return None
+        out[r_] = b_.args[0]
+    rest = [q for q in sel.params if q not in out.values()]
+    # the mask: (inner_end > START) & (inner_start < END)
+    idx = stores[0].data["index"]
+    mask = idx[0].cond if len(idx) == 1 and isinstance(idx[0], Num) else None
+    if mask is not None:
+        for c_ in flatten(mask, "and"):
+            if c_.t[0] != "cmp":
+                continue
+            syms = {a_.args[0] for a_ in atoms_of(c_.t[2], deep=False).values() if a_.kind == "sym" and a_.args[0] in rest}
+            has_is = out["inner-start"] in repr(c_.t[2]) and out["inner-end"] not in repr(c_.t[2])
+            has_ie = out["inner-end"] in repr(c_.t[2]) and out["inner-start"] not in repr(c_.t[2])
+            if len(syms) == 1:
+                if has_ie:
+                    out["start"] = next(iter(syms))
+                elif has_is:
+                    out["end"] = next(iter(syms))
+    rest = [q for q in rest if q not in out.values()]
+    if len(rest) == 1:
+        out["threshold"] = rest[0]
+    if set(out) != {"scores", "inner-start", "inner-end", "start", "end", "threshold"}:
+        return None
+    return out
 
 
 def check_selector_c09(ctx, sel):
@@ -368,7 +432,11 @@ def check_selector_c09(ctx, sel):
     ctx.check(okc, rule, "loop-condition", sel.loc(lp.node), "rounds continue while some remaining score exceeds the threshold (strict >)", found=repr(cond))
     apps = loop_events(p, lp, "list_append")
     am = app("argmax", sym("W"))
-    names = [q for q in sel.params if q not in ("scores", "threshold")]
+    rs_ = _selector_roles(ctx, sel)
+    if rs_ is not None:
+        names = [rs_["inner-start"], rs_["inner-end"], rs_["start"], rs_["end"]]
+    else:
+        names = [q for q in sel.params if q not in ("scores", "threshold")]
     a_s, a_e = None, None
     ok = False
     if len(apps) == 1 and isinstance(apps[0].data["value"], TupleV) and len(apps[0].data["value"].items) == 2:
